@@ -7,7 +7,9 @@ import (
 	"encoding/json"
 	"fmt"
 	"os"
+	"os/signal"
 	"strings"
+	"syscall"
 	"time"
 
 	"verifharness/hxlib"
@@ -251,6 +253,16 @@ func main() {
 		repl()
 		return
 	}
+	sig := make(chan os.Signal, 1)
+	signal.Notify(sig, syscall.SIGTERM, syscall.SIGINT)
+	go func() {
+		<-sig
+		if theChild != nil {
+			theChild.cmd.Process.Kill()
+		}
+		cleanupScratch()
+		os.Exit(130)
+	}()
 	code := 0
 	func() {
 		defer func() {
